@@ -290,7 +290,8 @@ class SimSolver(object):
     """Reference SMT-LIB solver process (analysis side): reads the command stream with the independent
     reader, checks every command for legality against the assertion-stack state, and answers."""
 
-    def __init__(self, answers, model):
+    def __init__(self, answers, model, verdict=None):
+        self.verdict = verdict            # optional: live assertions (reference terms) -> "sat" | "unsat" | ...
         self.script = refsmt.Script()
         self.rd = refsmt.Reader(self.script)
         self.inbuf = ""
@@ -330,6 +331,8 @@ class SimSolver(object):
             self.print_success = _unparse(c[2]) == "true"
         if name == "check-sat":
             a = self.answers.pop(0) if self.answers else "unknown"
+            if self.verdict is not None and a is not None:
+                a = self.verdict(self.script.live_assertions())
             if a is None:
                 return                     # the process died: end-of-file on the pipe from now on
             self.out += a + "\n"
@@ -451,7 +454,7 @@ class SolverWorld(World):
 
 
 T_ALPHABET = ["AX", "AY", "AU", "P", "P2", "P0", "O", "O2", "O0", "R", "S", "Q", "M", "GV"]
-T_NAMES = {"AX": "assert x<3", "AY": "assert a|x<y", "AU": "assert e1=e2 (sort U)", "P": "push", "P2": "push 2", "P0": "push 0",
+T_NAMES = {"AQ": "assert forall q1 q2: V. q1=q2 (sort V occurs in the binder only)", "AX": "assert x<3", "AY": "assert a|x<y", "AU": "assert e1=e2 (sort U)", "P": "push", "P2": "push 2", "P0": "push 0",
            "O": "pop", "O0": "pop 0", "O2": "pop 2", "R": "reset_assertions", "S": "solve", "Q": "is_sat(b&x<z)", "M": "get_model", "GV": "get_value(x)"}
 
 
@@ -513,8 +516,18 @@ def t_sequences(max_len):
             if t_legal(seq) and any(x in ("S", "Q") for x in seq):
                 out.append(seq)
     if max_len < 5:
-        # directed longer sequences: declarations made inside levels that are partly closed, then used again
         seen = set(out)
+        # directed: the verdict changes between two checks without an assertion in between (reset / pop)
+        for seq in (("AU", "S", "R", "S"), ("AU", "S", "R", "AX", "S"), ("P", "AU", "S", "O", "S"), ("P", "AU", "Q", "O", "S"),
+                    ("AX", "S", "AU", "S"), ("AU", "S", "R", "Q"), ("P2", "AU", "S", "O2", "S"), ("AU", "Q", "R", "S", "M"),
+                    ("AX", "P", "AU", "S", "O", "S", "M"),
+                    # a closed formula whose sort occurs in its binder only (declared although no symbol is new)
+                    ("AQ", "S"), ("AX", "AQ", "S", "M"), ("P", "AQ", "O", "AQ", "S"), ("AQ", "R", "AQ", "S"), ("AX", "S", "AQ", "Q"),
+                    ("P", "AQ", "S", "O", "AX", "S")):
+            if t_legal(seq) and seq not in seen:
+                out.append(seq)
+                seen.add(seq)
+        # directed longer sequences: declarations made inside levels that are partly closed, then used again
         for a_ in ("P", "P2", "P0"):
             for b_ in ("AX", "AY", "AU", "Q"):
                 for c_ in ("O", "O2", "O0", "R"):
@@ -541,7 +554,10 @@ def _text_chunk(seqs):
         FY = w.app("Or", a, w.app("LT", x, y))
         FU = w.app("Equals", e1, e2)
         FQ = w.app("And", b, w.app("LT", x, z))
-        forms = {"AX": FX, "AY": FY, "AU": FU}
+        VS = ("CUSTOM", "V")
+        q1, q2 = w.symbol("q1", VS), w.symbol("q2", VS)
+        FQV = w.app("ForAll", [q1, q2], w.app("Equals", q1, q2))
+        forms = {"AX": FX, "AY": FY, "AU": FU, "AQ": FQV}
         model = {"x": 1, "y": 2, "z": 5, "a": True, "b": True}
         logic = it.module_global(w.repo.modules["pysmt.logics"], "QF_UFLIA")
         out = []
@@ -550,7 +566,14 @@ def _text_chunk(seqs):
             try:
                 n_checks = sum(1 for s_ in seq if s_ in ("S", "Q"))
                 answers = ["sat"] * (n_checks + 1)
-                sim = SimSolver(answers, model)
+
+                def verdict(live):
+                    # the solver answers unsat exactly when an assertion over the uninterpreted sort is live
+                    for t_ in live:
+                        if "e1" in refsmt.symbols_of(t_):
+                            return "unsat"
+                    return "sat"
+                sim = SimSolver(answers, model, verdict)
                 w.sim = sim
                 solver = it.instantiate(ClassRef(SMTLIB_SOLVER), [["sim"], w.env, logic], {})
                 ref = [[]]
@@ -574,12 +597,16 @@ def _text_chunk(seqs):
                         ref = [[]]
                     elif st == "S":
                         ret = it.call(it.getattr(solver, "solve"), [])
-                        if ret is not True:
-                            problems.append("step %d: solve returns %r, the solver answered sat" % (i, ret))
+                        want_v = not any(g is FU for fr in ref for g in fr)
+                        if ret is not want_v:
+                            problems.append("step %d: solve returns %r, the solver's answer for the live assertions is %s"
+                                            % (i, ret, "sat" if want_v else "unsat"))
                     elif st == "Q":
                         ret = it.call(it.getattr(solver, "is_sat"), [FQ])
-                        if ret is not True:
-                            problems.append("step %d: is_sat returns %r, the solver answered sat" % (i, ret))
+                        want_v = not any(g is FU for fr in ref for g in fr)
+                        if ret is not want_v:
+                            problems.append("step %d: is_sat returns %r, the solver's answer for the live assertions is %s"
+                                            % (i, ret, "sat" if want_v else "unsat"))
                     elif st == "M":
                         m = it.call(it.getattr(solver, "get_model"), [])
                         asg = m.attrs.get("assignment") if isinstance(m, AObj) else None
@@ -944,6 +971,8 @@ class ConnModel(ExtModel):
         self.world.ctrl_sent.append((self.side, a[0]))
 
     def m_recv(self, it, a, k):
+        # a member that reads its control pipe is alive and waiting for the parent
+        self.world.recv_reached = True
         raise AbsRaise("EOFError", ())
 
     def m_close(self, it, a, k):
@@ -981,10 +1010,11 @@ class ProcessModel(ExtModel):
         # a member is alive until its message has been delivered (answering members stay alive, waiting on
         # the control pipe; failing and dying members end); silent members die at their scheduled point
         beh = w.behaviours[self.index]
-        if beh == "T":
-            return True
-        if beh == "X":
-            return self.index not in w.delivered
+        if beh in ("T", "X"):
+            if self.index not in w.delivered:
+                return True               # still computing
+            # after its message: alive iff the interpretation of _run_solver went on to wait on the control pipe
+            return w.alive_after.get(self.index, beh == "T")
         return w.pos < w.death.get(self.index, 0)
 
 
@@ -1001,6 +1031,9 @@ class PortfolioWorld(World):
         self.processes = []
         self.puts = []
         self.ctrl_sent = []
+        if not hasattr(self, "alive_after"):
+            self.alive_after = {}
+        self.recv_reached = False
 
     def queue_of(self, member, default):
         """the queue object the process of `member` (of the current run) was started with"""
@@ -1082,12 +1115,15 @@ def _portfolio_chunk(job):
                 it.call(it.getattr(pf, "add_assertion"), [f])
                 # what each member puts on the queue: _run_solver interpreted with its stub solver
                 msgs = {}
+                alive_after = {}
                 for i, nm in enumerate(names):
                     if beh[i] == "D":
                         continue
                     w.puts = []
+                    w.recv_reached = False
                     pname = "%d (%s)" % (i, nm)
                     it.call(run_solver, [pname, nm, logic, {}, f, QueueModel(w), ConnModel(w, "child")])
+                    alive_after[i] = w.recv_reached
                     if len(w.puts) != 1:
                         out.append((beh, order, gaps, "bad", "member %s puts %d messages on the queue" % (nm, len(w.puts))))
                         break
@@ -1100,6 +1136,7 @@ def _portfolio_chunk(job):
                         sched.append(("msg", i, msgs[i]))
                     death = dict((i, 0) for i, b in enumerate(beh) if b == "D")
                     w.reset_run(sched, list(beh), death)
+                    w.alive_after = alive_after
                     w.env.attrs["_factory"] = factory
                     try:
                         res = ("ret", it.call(it.getattr(pf, "solve"), []))
@@ -1438,6 +1475,27 @@ def _opt_job(job):
                     results.append((label, "raise", "%s%s" % (ex.cls_name, proc._args(ex))))
                 except Unsupported as ex:
                     results.append((label, "hang" if ("loop exceeds" in str(ex) or "step budget" in str(ex)) else "unsupported", str(ex)))
+            # the same goal object, extended after it was used: the next call optimises the extended goal
+            na = w.app("Not", a)
+            it.call(it.getattr(goal, "add_soft_clause"), [na, 10])
+            soft2 = soft + [(na, 10)]
+            best2 = max(sum(wt for fm, wt in soft2 if sc.nodeval(w, fm, asg)) for _, asg in sat_all)
+            s_ = fresh()
+            label = "optimize(MaxSMT a:2 b:3 c:1, then extended by !a:10, linear)"
+            try:
+                r = it.call(it.getattr(s_, "optimize"), [goal], {"strategy": "linear"})
+                if r is None:
+                    results.append((label, "bad", "reports no solution, the assertions are satisfiable"))
+                else:
+                    cval = sc.nodeval(w, r[1], {}) if w.is_node(r[1]) else r[1]
+                    if cval != best2:
+                        results.append((label, "bad", "returns cost %r, the maximal satisfied weight of the extended goal is %r" % (cval, best2)))
+                    else:
+                        results.append((label, "ok", "cost %r" % (cval,)))
+            except AbsRaise as ex:
+                results.append((label, "raise", "%s%s" % (ex.cls_name, proc._args(ex))))
+            except Unsupported as ex:
+                results.append((label, "hang" if ("loop exceeds" in str(ex) or "step budget" in str(ex)) else "unsupported", str(ex)))
             return results
         goal_objs = []
         for name, ctor, args in goals:
